@@ -8,25 +8,32 @@ ENTRY = dict(
                "correspondence through Device.set / parameter.set on devices populated by real parameter responses; Lean judge C06.spec on "
                "what the implementation did"),
     level_text=(
-        "Proof: `C06.reject_iff` (a request whose raw encoding differs from the held value is refused iff the encoding is < min or > max), "
-        "`C06.reject_inert`/`refused_inert` (refusal, no-op and conversion errors transmit nothing and leave the triple unchanged), "
-        "`C06.tx_in_range` (every transmitted set request carries a raw value within the inclusive bounds held at the call, any retry count), "
-        "`C06.accepted`, `C06.empty_range_refuses_all` (min > max), `C06.holds` (the model satisfies the statement's predicate C06.spec). "
-        "They quantify over every conversion (hence every row of every table), every triple incl. degenerate ones and every Python value "
-        "(int, float, bool, str). The model is tied to the code by running every description x triples x boundary requests through the real "
-        "set() and comparing exception, queued set requests and value before/after; C06.spec is judged by the Lean driver on each observation."),
-    level_note=("Trusted: Lean kernel; binary64 model = CPython (validated exhaustively by C17's check); model <-> helpers/parameter.py and the three "
-                "Number subclasses is differential. Reports that change the bounds while a set is in flight are outside C06 (and C08)."),
+        "Proof, headline = the report/set machine (Model/ParamSet.lean `stepM`: controller reports, set calls, retries): "
+        "`C06.report_always_replaces` (every report replaces value, min and max, also while a call is in flight), "
+        "`C06.bounds_are_last_report` + `C06.checked_against_last_report` (over EVERY history the decision of a set is taken against the "
+        "bounds of the LAST report: refused iff the raw encoding lies outside them), `C06.tx_in_range_at_call` (over every history every "
+        "transmitted request carries a value within the bounds held when its call was accepted), `C06.first_attempt_in_last_reported_range`. "
+        "The full second sentence over histories, `tx_in_last_reported_range_full`, is REFUTED by `tx_in_last_reported_range_full_false` "
+        "(open finding F7: retries re-assert the value without re-checking the range). One-call lemmas: `reject_iff`, `reject_inert`, "
+        "`refused_inert`, `accepted`, `tx_in_range`, `empty_range_refuses_all`, `held_value_noop`, `holds` (model satisfies C06.spec). "
+        "All for every conversion (every table row), every triple incl. degenerate ones, every Python value. Tie: every description x "
+        "triples x boundary requests through the real set(), and histories of real report frames / set calls / retries under virtual time "
+        "compared step by step with the machine; C06.spec judged by the Lean driver against the LAST REPORTED triple."),
+    level_note=("Trusted: Lean kernel; binary64 model = CPython (validated exhaustively by C17's check); machine <-> helpers/parameter.py and the "
+                "Number subclasses is differential. Two concurrent set calls on one parameter are outside the machine."),
     clauses={
-        "raw encoding below min / above max => ValueError": "theorem (`reject_iff`), for requests that differ from the held value",
+        "raw encoding below min / above max of the LAST report => ValueError": "theorem (`checked_against_last_report`, `reject_iff`), for requests that differ from the held value",
         "refused => nothing transmitted, held value unchanged": "theorem (`reject_inert`, `refused_inert`)",
-        "every transmitted set request within the inclusive bounds": "theorem (`tx_in_range`)",
-        "request equal to the held value (even if the controller reported it outside its own bounds)": "no-op returning True, nothing transmitted, nothing changed: theorem (`reject_inert`); the literal 'raises ValueError' is not claimed for it",
+        "every transmitted set request within the bounds held when the call was accepted": "theorem over all histories (`tx_in_range_at_call`)",
+        "every transmitted set request within the LAST REPORTED bounds": "PARTIAL: theorem for first attempts (`first_attempt_in_last_reported_range`); full clause refuted (`tx_in_last_reported_range_full_false`), open finding F7",
+        "carve-out: request equal to the held value (even if the controller reported it outside its own bounds)": "documented carve-out, theorem `held_value_noop`: no-op returning True, nothing transmitted, nothing changed; the literal 'raises ValueError' is not claimed for it",
+        "a report always replaces the triple (also while pending / same value / other bounds)": "theorem (`report_always_replaces`) + correspondence (histories through real frames)",
         "raw encoding of a requested value": "C17's conversion model (exact binary64), correspondence-validated",
-        "model = implementation": "correspondence (every table row x triples x boundary requests)",
+        "model = implementation": "correspondence (every table row x triples x boundary requests; histories with reports between attempts)",
     },
     assumptions=COMMON_ASSUME + [
-        "requested values are finite (no NaN/inf) and 'on'/'off' are the only strings; bounds are those held when set() is called",
+        "requested values are finite (no NaN/inf) and 'on'/'off' are the only strings",
+        "one set call at a time per parameter",
     ],
     timeout={"quick": 600, "thorough": 1800},
 )
